@@ -166,7 +166,8 @@ func c07RuleSet(src, ver int, spoil int) *rconfig.RuleSet {
 		MetaData: rconfig.MetaData{Source: fmt.Sprintf("s%d", src)},
 		Version:  rconfig.CurrentRuleSetVersion,
 		Name:     fmt.Sprintf("s%d", src),
-		Rules:    []rconfig.Rule{mk("a", fmt.Sprintf("/s%d/a", src)), mk("b", fmt.Sprintf("/s%d/:x/b", src))},
+		Rules: []rconfig.Rule{mk("a", fmt.Sprintf("/s%d/a", src)), mk("b", fmt.Sprintf("/s%d/:x/b", src)),
+			mk("c", fmt.Sprintf("/s%d/c/**", src))},
 	}
 
 	if spoil != 0 {
@@ -381,8 +382,11 @@ func c07Round(rec *c07Recorder, nw, nr, nops, nlook int, seed int64) ([]c07Event
 				src := 1 + rng.Intn(nw)
 				path := fmt.Sprintf("/s%d/a", src)
 
-				if rng.Intn(2) == 0 {
+				switch rng.Intn(3) {
+				case 0:
 					path = fmt.Sprintf("/s%d/zz/b", src)
+				case 1:
+					path = fmt.Sprintf("/s%d/c/deep/er", src) // served by the free wildcard of the source
 				}
 
 				got := lookup(src, path)
